@@ -380,7 +380,9 @@ func (vc *VC) calleeSlice() map[string]bool {
 				if t == parent || t == s {
 					sl[parent] = true
 					for _, s2 := range subs {
-						sl[s2] = true
+						if !strings.HasSuffix(s2, "p") {
+							sl[s2] = true
+						}
 					}
 				}
 			}
